@@ -195,8 +195,20 @@ def classify_combinator(fn):
     raise Unsupported('validator combinator %r does something unknown' % getattr(fn, '__name__', fn))
 
 
-def validator(node, mod, tree, prim):
+def validator(node, mod, tree, prim, depth=0):
     """the `validate` expression of a field -> Coq `vdt`; the callees are classified by what they do"""
+    if isinstance(node, ast.Name) and depth < 8:
+        # a module-level constant naming a composed validator: look through it
+        for st in tree.body:
+            tgt = None
+            if isinstance(st, ast.Assign) and len(st.targets) == 1:
+                tgt = st.targets[0]
+            elif isinstance(st, ast.AnnAssign) and st.value is not None:
+                tgt = st.target
+            if isinstance(tgt, ast.Name) and tgt.id == node.id:
+                return validator(st.value, mod, tree, prim, depth + 1)
+    if isinstance(node, (ast.NamedExpr,)):
+        return validator(node.value, mod, tree, prim, depth + 1)
     if isinstance(node, ast.Name):
         op, k = primitive_rejects(tree, node.id)
         if (op, k) == ('OpLe', 0):
@@ -209,9 +221,9 @@ def validator(node, mod, tree, prim):
     if isinstance(node, ast.Call) and isinstance(node.func, ast.Name) and not node.keywords:
         kind = classify_combinator(getattr(mod, node.func.id))
         if kind == 'optional' and len(node.args) == 1:
-            return 'VOptional (%s)' % validator(node.args[0], mod, tree, prim)
+            return 'VOptional (%s)' % validator(node.args[0], mod, tree, prim, depth + 1)
         if kind == 'chain':
-            return 'VChain [%s]' % '; '.join(validator(a, mod, tree, prim) for a in node.args)
+            return 'VChain [%s]' % '; '.join(validator(a, mod, tree, prim, depth + 1) for a in node.args)
         if kind == 'of_type':
             tys = []
             for a in node.args:
@@ -391,6 +403,40 @@ def assigned_names(stmts):
     return cnt
 
 
+def hoist_walrus(st):
+    """`if (x := e) <rest of the test>: ...` -> `x = e` + `if x <rest>: ...` when the walrus is evaluated
+    first and unconditionally (leftmost operand, not behind and/or/if-else)"""
+    if not isinstance(st, ast.If):
+        return None
+    new = copy.copy(st)
+    # deepcopy loses identity: rebuild by position instead
+    t = copy.deepcopy(st.test)
+    cur, parent, field = t, None, None
+    while not isinstance(cur, ast.NamedExpr):
+        if not isinstance(cur, (ast.UnaryOp, ast.Compare, ast.BoolOp, ast.BinOp)):
+            return None
+        if isinstance(cur, ast.UnaryOp):
+            parent, field, cur = cur, 'operand', cur.operand
+        elif isinstance(cur, ast.Compare):
+            parent, field, cur = cur, 'left', cur.left
+        elif isinstance(cur, ast.BoolOp):
+            parent, field, cur = cur, 0, cur.values[0]
+        else:
+            parent, field, cur = cur, 'left', cur.left
+    if not isinstance(cur.target, ast.Name):
+        return None
+    name = ast.Name(id=cur.target.id, ctx=ast.Load())
+    if parent is None:
+        t = name
+    elif field == 0:
+        parent.values[0] = name
+    else:
+        setattr(parent, field, name)
+    new.test = t
+    assign = ast.Assign(targets=[ast.Name(id=cur.target.id, ctx=ast.Store())], value=cur.value, lineno=0)
+    return [ast.fix_missing_locations(assign), new]
+
+
 def norm_block(stmts, methods, depth, callbacks, fn, env=None, counts=None):
     env = dict(env or {})
     if counts is None:
@@ -398,6 +444,10 @@ def norm_block(stmts, methods, depth, callbacks, fn, env=None, counts=None):
     out = []
     for st in stmts:
         if noise(st):
+            continue
+        hoisted = hoist_walrus(st)
+        if hoisted is not None:
+            out += norm_block(hoisted, methods, depth, callbacks, fn, env, counts)
             continue
         st = subst(st, env)
         # a local bound exactly once to an await-free expression: replace it by its value
@@ -646,7 +696,16 @@ def effects(stmts, R):
         run.sort(key=lambda s: (RANK[s.split(' ')[0]], s))
         out.extend(run)
         del run[:]
-    for st in stmts:
+    stmts = list(stmts)
+    while stmts:
+        st = stmts.pop(0)
+        # `with <no await>: body` and a try whose handlers do nothing about keepalive: their bodies
+        if isinstance(st, ast.With) and not any(has_await(i.context_expr) for i in st.items):
+            stmts = list(st.body) + stmts
+            continue
+        if isinstance(st, ast.Try) and not any(effects(h.body, R) for h in st.handlers):
+            stmts = list(st.body) + list(st.orelse) + list(st.finalbody) + stmts
+            continue
         e = effect(st, R)
         if e is None:
             continue
@@ -966,6 +1025,41 @@ def initial_values(cls, R):
             raise Unsupported('initial value of Connection.%s is %r' % (k, got.get(k)))
 
 
+def dispatch_target(cls, tree, event):
+    """the method of `cls` the h2 event class `event` is associated with, however the table is written: a
+    dict literal {Event: self.m}, or pairs (Event, 'm') / (Event, m) / {Event: 'm'} in the class or module
+    (a table the constructor turns into bound methods with getattr).  Exactly one association."""
+    found = set()
+
+    def is_event(k):
+        return k is not None and u(k).split('.')[-1] == event
+
+    def target(v):
+        if isinstance(v, ast.Constant) and isinstance(v.value, str):
+            return v.value
+        s = u(v)
+        for pre in ('self.', cls.name + '.'):
+            if s.startswith(pre) and '.' not in s[len(pre):] and '(' not in s:
+                return s[len(pre):]
+        if isinstance(v, ast.Name):
+            return v.id
+        return None
+    for scope in (cls, tree):
+        for n in ast.walk(scope):
+            if isinstance(n, ast.Dict):
+                for k, v in zip(n.keys, n.values):
+                    if is_event(k) and target(v):
+                        found.add(target(v))
+            elif isinstance(n, (ast.Tuple, ast.List)) and len(n.elts) == 2 and is_event(n.elts[0]) \
+                    and target(n.elts[1]):
+                found.add(target(n.elts[1]))
+        if found:
+            break
+    if len(found) != 1:
+        raise Unsupported('%s is associated with %s' % (event, sorted(found) or 'no method'))
+    return found.pop()
+
+
 def protocol_facts(repo, add):
     tree = parse(repo, 'grpclib/protocol.py')
     ccls = class_node(tree, 'Connection')
@@ -990,12 +1084,7 @@ def protocol_facts(repo, add):
     # PingAckReceived is dispatched to a handler that calls ping_ack_process
     ep = class_node(tree, 'EventsProcessor')
     em = methods_of(ep)
-    handler = None
-    for n in ast.walk(em.get('__init__', ep)):
-        if isinstance(n, ast.Dict):
-            for k, v in zip(n.keys, n.values):
-                if k is not None and u(k).split('.')[-1] == 'PingAckReceived' and u(v).startswith('self.'):
-                    handler = u(v)[5:]
+    handler = dispatch_target(ep, tree, 'PingAckReceived')
     if handler is None or handler not in em:
         raise Unsupported('PingAckReceived is not dispatched to a method of EventsProcessor')
     add('Definition src_ping_ack_handler : list kstmt := [\n  %s\n].' % ';\n  '.join(
